@@ -41,22 +41,56 @@ impl TxDependency {
 
     pub(crate) fn next(&self) -> Option<TxId> {
         if self.index.load(Ordering::Relaxed) >= self.num_txs {
+            #[cfg(grevm_verif)]
+            crate::verif::p1("dep_next_full", self.index.load(Ordering::Relaxed) as i64);
             return None;
         }
         let index = self.index.fetch_add(1, Ordering::Relaxed);
+        #[cfg(grevm_verif)]
+        crate::verif::p1("dep_next_fetch", index as i64);
         if index >= self.num_txs {
             return None;
         }
+        #[cfg(grevm_verif)]
+        crate::verif::before_lock(&self.dependent_state[index]);
         let mut state = self.dependent_state[index].lock();
         if state.onboard && state.dependency.is_none() {
             state.onboard = false;
+            #[cfg(grevm_verif)]
+            crate::verif::p2("dep_next_claim", index as i64, 1);
             return Some(index)
         }
+        #[cfg(grevm_verif)]
+        crate::verif::p2("dep_next_claim", index as i64, 0);
         None
     }
 
     pub(crate) fn index(&self) -> usize {
         self.index.load(Ordering::Relaxed)
+    }
+
+    /// Snapshot of the scheduling state for the verification harness: `(onboard, dependency)` per
+    /// transaction, reverse edges per predecessor, and the execution cursor.
+    #[cfg(grevm_verif)]
+    pub(crate) fn verif_snapshot(&self) -> (Vec<(bool, Option<TxId>)>, Vec<Vec<TxId>>, usize) {
+        let states = self
+            .dependent_state
+            .iter()
+            .map(|s| {
+                let s = s.lock();
+                (s.onboard, s.dependency)
+            })
+            .collect();
+        let affects = self
+            .affect_txs
+            .iter()
+            .map(|a| {
+                let mut v: Vec<TxId> = a.lock().iter().copied().collect();
+                v.sort_unstable();
+                v
+            })
+            .collect();
+        (states, affects, self.index.load(Ordering::Relaxed))
     }
 
     /// Clear transactions waiting on `txid`.
@@ -65,25 +99,49 @@ impl TxDependency {
     /// its cursor position has already been passed; all other released work rewinds the cursor.
     pub(crate) fn remove(&self, txid: TxId, pop_next: bool) -> Option<TxId> {
         let mut next = None;
+        #[cfg(grevm_verif)]
+        crate::verif::before_lock(&self.affect_txs[txid]);
         let mut affects = self.affect_txs[txid].lock();
+        #[cfg(grevm_verif)]
+        crate::verif::p3("dep_remove_begin", txid as i64, pop_next as i64, affects.len() as i64);
         if affects.is_empty() {
             return next;
         }
         for &tx in affects.iter() {
+            #[cfg(grevm_verif)]
+            crate::verif::before_lock(&self.dependent_state[tx]);
             let mut dependent = self.dependent_state[tx].lock();
+            #[cfg(grevm_verif)]
+            let mut verif_action = 0; // 0 stale edge, 1 cleared only, 2 handed over, 3 cursor rewound
             if dependent.dependency == Some(txid) {
                 dependent.dependency = None;
+                #[cfg(grevm_verif)]
+                {
+                    verif_action = 1;
+                }
                 if dependent.onboard {
                     if pop_next && tx == txid + 1 && self.index.load(Ordering::Relaxed) > tx {
                         dependent.onboard = false;
                         next = Some(tx);
+                        #[cfg(grevm_verif)]
+                        {
+                            verif_action = 2;
+                        }
                     } else {
                         self.index.fetch_min(tx, Ordering::Relaxed);
+                        #[cfg(grevm_verif)]
+                        {
+                            verif_action = 3;
+                        }
                     }
                 }
             }
+            #[cfg(grevm_verif)]
+            crate::verif::p3("dep_release", txid as i64, tx as i64, verif_action);
         }
         affects.clear();
+        #[cfg(grevm_verif)]
+        crate::verif::p2("dep_remove_end", txid as i64, crate::verif::opt(next));
         next
     }
 
@@ -91,7 +149,11 @@ impl TxDependency {
     pub(crate) fn commit(&self, txid: TxId) {
         let next = txid + 1;
         if next < self.num_txs {
+            #[cfg(grevm_verif)]
+            crate::verif::before_lock(&self.dependent_state[next]);
             let mut state = self.dependent_state[next].lock();
+            #[cfg(grevm_verif)]
+            crate::verif::p2("dep_commit", txid as i64, state.onboard as i64);
             if state.onboard {
                 state.dependency = None;
                 self.index.fetch_min(next, Ordering::Relaxed);
@@ -105,6 +167,8 @@ impl TxDependency {
     /// Once the committed prefix reaches `txid`, no barrier is installed and the cursor is rewound
     /// immediately; otherwise committing `txid - 1` releases it through [`Self::commit`].
     pub(crate) fn key_tx(&self, txid: TxId, commit_idx: PublishedCursorReader<'_>) {
+        #[cfg(grevm_verif)]
+        crate::verif::before_lock(&self.dependent_state[txid]);
         let mut state = self.dependent_state[txid].lock();
         if txid > commit_idx.get() {
             state.dependency = Some(txid);
@@ -115,6 +179,13 @@ impl TxDependency {
         if state.dependency.is_none() {
             self.index.fetch_min(txid, Ordering::Relaxed);
         }
+        #[cfg(grevm_verif)]
+        crate::verif::p3(
+            "dep_key_tx",
+            txid as i64,
+            commit_idx.get() as i64,
+            crate::verif::opt(state.dependency),
+        );
     }
 
     /// Add one scheduling predecessor, or make `txid` eligible when no predecessor is needed.
@@ -131,8 +202,14 @@ impl TxDependency {
                 dep_id < txid,
                 "dependency transaction {dep_id} must precede dependent transaction {txid}",
             );
+            #[cfg(grevm_verif)]
+            crate::verif::before_lock(&self.affect_txs[dep_id]);
             let mut dep = self.affect_txs[dep_id].lock();
+            #[cfg(grevm_verif)]
+            crate::verif::before_lock(&self.dependent_state[dep_id]);
             let mut dep_state = self.dependent_state[dep_id].lock();
+            #[cfg(grevm_verif)]
+            crate::verif::before_lock(&self.dependent_state[txid]);
             let mut state = self.dependent_state[txid].lock();
             state.dependency = Some(dep_id);
             if !state.onboard {
@@ -146,8 +223,19 @@ impl TxDependency {
             if dep_state.dependency.is_none() {
                 self.index.fetch_min(dep_id, Ordering::Relaxed);
             }
+            #[cfg(grevm_verif)]
+            crate::verif::p3(
+                "dep_add",
+                txid as i64,
+                dep_id as i64,
+                crate::verif::opt(dep_state.dependency),
+            );
         } else {
+            #[cfg(grevm_verif)]
+            crate::verif::before_lock(&self.dependent_state[txid]);
             let mut state = self.dependent_state[txid].lock();
+            #[cfg(grevm_verif)]
+            crate::verif::p3("dep_add", txid as i64, crate::verif::NONE, state.onboard as i64);
             if !state.onboard {
                 state.onboard = true;
                 state.dependency = None;
